@@ -27,8 +27,8 @@ func exampleLexers() map[string]*lexer.StatefulDefinition {
 				{Name: "Heredoc", Pattern: `<<(\w+)\b`, Action: lexer.Push("Heredoc")},
 				{Name: "Ident", Pattern: `[a-zA-Z_]\w*`},
 				{Name: "Number", Pattern: `\d+(\.\d+)?`},
-				{Name: "Punct", Pattern: `[-+*/=(){};,]`},
 				{Name: "comment", Pattern: `//[^\n]*`},
+				{Name: "Punct", Pattern: `[-+*/=(){};,]`},
 				{Name: "whitespace", Pattern: `\s+`},
 			},
 			"Heredoc": {
